@@ -266,6 +266,8 @@ def manifest():
         "engines": [
             {"name": "xsym", "path": "pv/engine/xsym.py", "serves_properties": sorted(CHECKS),
              "kind_free_text": "own path-exploration driver on CrossHair 0.0.110 internals + z3: executes the real ptera code on symbolic ints/lists, one path per iteration, exhausts the path tree"},
+            {"name": "seqz", "path": "pv/engine/seqz.py", "serves_properties": [p for p in ("C08",) if p in CHECKS],
+             "kind_free_text": "sequentialiser: rewrites the current source of ptera's shared-state functions into generator coroutines (scheduling point before every statement, load/store split of augmented attribute/subscript assignment) run as virtual threads in separate contextvars.Contexts; schedules chosen by xsym; real-thread replay via sys.monitoring"},
             {"name": "zsmt", "path": "pv/engine/zsmt.py", "serves_properties": [p for p in ("C12", "C18", "C15") if p in CHECKS],
              "kind_free_text": "direct z3/cvc5 queries generated from live source (Python AST -> Int formulas; sre parse tree -> z3 regex)"},
         ],
